@@ -2,19 +2,24 @@
 (* C38 stated once, over parameters.  ConsoleAuth.tla instantiates it with model state and     *)
 (* history, Obs_ConsoleAuth.tla with values observed on the real console mux.                   *)
 EXTENDS Integers, Sequences, FiniteSets
-CONSTANTS req,       \* a request to a protected endpoint: [cookie, served]  (served = the endpoint answered it, i.e. did not reject it)
+CONSTANTS req,       \* a request to a protected endpoint: [cookies, served]; cookies = the sequence of session-cookie values it carries
+                     \* (usually one; a client may send several same-named cookies); served = the endpoint answered it (did not reject it)
           now,       \* time of the request
           issuedAt,  \* function token -> time at which a login with valid credentials issued it (-1 = never)
-          loggedOut, \* set of tokens presented to a logout so far
+          loggedOut, \* set of tokens logged out so far: tokens presented to a logout as its only session cookie
+          loggedOutJars, \* set of multi-cookie lists presented to a logout so far (which of several same-named cookies is "the" session is
+                     \* unspecified, so only this is demanded: the identical cookie list is not answered any more)
           ttl,       \* configured session lifetime
           admitted,  \* function client address -> sequence of times at which a login attempt of that address was let through to the credential check
           window, limit  \* configured sliding window length and attempts per window
 
-Live(c) == /\ c \in DOMAIN issuedAt /\ issuedAt[c] >= 0    \* issued by a successful login
-           /\ now <= issuedAt[c] + ttl                     \* not expired
-           /\ c \notin loggedOut                           \* not logged out
+TokLive(c) == /\ c \in DOMAIN issuedAt /\ issuedAt[c] >= 0    \* issued by a successful login
+              /\ now <= issuedAt[c] + ttl                     \* not expired
+              /\ c \notin loggedOut                           \* not logged out
+Live(jar) == /\ \E i \in 1..Len(jar) : TokLive(jar[i])         \* it carries a live session token ...
+             /\ jar \notin loggedOutJars                       \* ... and these credentials were not logged out
 \* a protected endpoint answers only requests carrying a live session token
-C38_SessionRequired == req.served => Live(req.cookie)
+C38_SessionRequired == req.served => Live(req.cookies)
 \* at most `limit` attempts of one address in any half-open window (t - window, t]  (DESIGN §4 C38: the limiter
 \* drops hits with ts <= now - window; the maximum over all t is attained at t = time of some attempt)
 C38_RateLimit ==
